@@ -135,6 +135,17 @@ Theorem C14_list_fields_without_read_meaning :
 Proof. exact list_fields_without_read_meaning. Qed.
 Print Assumptions C14_list_fields_without_read_meaning.
 
+(* When the pointer cannot name the metadata file (missing, unparseable, or naming a file that is gone) the
+   version is recovered by listing the metadata directory; a listing that FAILS makes every read API raise -- it
+   is never taken for "no metadata", which would report the table as empty. *)
+Theorem C14_recovery_listing_fails_closed : forall (E : env) (st : store) (a : api) (o : opts) (b : bytes),
+  (forall s b', st HINT <> Flaky s b') ->
+  (hinted E st = None \/ exists mk, hinted E st = Some mk /\ st mk = Absent) ->
+  st METADIR = Flaky (OpList, 0%nat) b ->
+  out (read_current E st a o) = Err EIO.
+Proof. exact recovery_listing_fails_closed. Qed.
+Print Assumptions C14_recovery_listing_fails_closed.
+
 (* The model does not raise without cause (so the theorems above are not satisfied by a pipeline that
    always fails): with no transient fault anywhere, metadata that resolves, a complete answer on the
    specification side and recorded checksums that match, every API returns exactly that answer. *)
